@@ -5,6 +5,8 @@
 pub mod models;
 pub mod util;
 pub mod rfc9180;
+#[cfg(kani)]
+pub mod fasthkdf;
 
 #[cfg(kani)]
 pub mod c01;
@@ -38,6 +40,8 @@ pub mod c16;
 pub mod c18;
 #[cfg(kani)]
 pub mod tables;
+#[cfg(kani)]
+pub mod bench;
 
 // filled in by `run.py --replay` with a Kani concrete-playback unit test
 #[cfg(kani)]
